@@ -84,12 +84,13 @@ class Ctx(object):
         if self._n_viol_files >= 5:
             return
         self._n_viol_files += 1
-        os.makedirs(os.path.join(VERIF, 'replays'), exist_ok=True)
+        rdir = os.environ.get('VERIF_REPLAY_DIR', os.path.join(VERIF, 'replays'))
+        os.makedirs(rdir, exist_ok=True)
         doc = {'property': self.pid, 'tier': self.tier, 'seed': self.seed,
                'signature': signature, 'what': what, 'replay': replay}
         blob = json.dumps(doc, indent=1, default=_jd, sort_keys=True)
         h = hashlib.sha1(blob.encode()).hexdigest()[:10]
-        path = os.path.join(VERIF, 'replays', '%s_%s.json' % (self.pid, h))
+        path = os.path.join(rdir, '%s_%s.json' % (self.pid, h))
         with open(path, 'w') as f:
             f.write(blob)
         print('VIOLATION property=%s replay=%s' % (self.pid, path))
@@ -103,6 +104,8 @@ class Ctx(object):
 
     # -- evidence ---------------------------------------------------------
     def write_evidence(self):
+        if os.environ.get('VERIF_NO_EVIDENCE'):
+            return {'wall_s': round(time.time() - self.t0, 2)}
         cov = {
             'states': int(self.distinct),
             'transitions': int(max(self.transitions, self.states)),
